@@ -15,6 +15,13 @@ type Lexer struct {
 	hadNewline    bool // newline was seen before current token
 	lastNewLine   int  // position just after most recent newline
 	lineNumber    int
+	unterminated  bool // a string literal reached the end of the input without its closing quote
+}
+
+// Unterminated returns true if the end of input was reached inside a string literal
+// (which ends the token stream like the end of input does).
+func (l *Lexer) Unterminated() bool {
+	return l.unterminated
 }
 
 // Mode with input expected the be complete (multiline/file).
@@ -113,6 +120,7 @@ func (l *Lexer) NextToken() *token.Token {
 	case '"', '`':
 		str, ok := l.readString(ch)
 		if !ok {
+			l.unterminated = true
 			return l.EOLEOF()
 		}
 		return token.Intern(token.STRING, str)
